@@ -434,6 +434,9 @@ class OpSum(list):
         prod = op_list[0]
         for op in op_list[1:]:
             prod = prod * op
+        if prod is op_list[0] and isinstance(prod, OpSum):
+            # a single factor: still return a new sum, not the operand itself
+            prod = prod.copy()
         return prod
 
     def copy(self):
